@@ -880,6 +880,50 @@ func ruleResolverSpec(r *Run) {
 					}
 				}
 			}
+			// R11e: a case that filters on @deprecated must belong to a field that has the
+			// includeDeprecated argument — otherwise nothing the client can send makes the
+			// filtered elements appear, while validation still accepts their use
+			// (the test sits in the case body itself or in a helper it calls directly; element
+			// resolvers also look at the directive, to answer isDeprecated — they do not filter)
+			isResolver := map[*ssa.Function]bool{}
+			for _, fs := range byType {
+				for _, f := range fs {
+					isResolver[f] = true
+				}
+			}
+			callsDeprecatedTest := func(f *ssa.Function) bool {
+				for _, ins := range allInstrs(f) {
+					if ci, ok := ins.(ssa.CallInstruction); ok && strings.HasSuffix(calleeName(ci.Common()), "introspection.hasDeprecatedDirective") {
+						return true
+					}
+				}
+				return false
+			}
+			filters := false
+			for _, b := range rs.fn.Blocks {
+				if b == body || (len(body.Preds) == 1 && body.Dominates(b)) {
+					for _, ins := range b.Instrs {
+						ci, ok := ins.(ssa.CallInstruction)
+						if !ok {
+							continue
+						}
+						if strings.HasSuffix(calleeName(ci.Common()), "introspection.hasDeprecatedDirective") {
+							filters = true
+						}
+						if sc := ci.Common().StaticCallee(); sc != nil && inModule(sc) {
+							if g := r.P.declared(sc); g != nil && !isResolver[g] && g.Blocks != nil && callsDeprecatedTest(g) {
+								filters = true
+							}
+						}
+					}
+				}
+			}
+			if filters && fd.Type.Elem != nil {
+				n++
+				r.Check(fd.Arguments.ForName("includeDeprecated") != nil, "R11e", name, rs.def.Name+"."+cname+" filters deprecated elements", r.P.pos(firstPos(body)),
+					"the specification gives `"+cname+"` the includeDeprecated argument that switches the filter off",
+					"the list answered for `"+cname+"` leaves out elements marked @deprecated, but "+rs.def.Name+"."+cname+" has no includeDeprecated argument: a deprecated "+elem+" can never be listed although validation accepts requests that use it")
+			}
 			okElem := false
 			for _, w := range want {
 				if called[w] {
